@@ -4,6 +4,7 @@ import (
 	"bytes"
 	"fmt"
 	"sync"
+	"time"
 
 	frugal "github.com/Workiva/frugal/lib/go"
 	"github.com/apache/thrift/lib/go/thrift"
@@ -91,23 +92,23 @@ func (mon *monitor) runScope(cfg *config) {
 	subProvider := frugal.NewFScopeProvider(busPubFactory{b}, busSubFactory{b}, pf, tr.list(cfg.SubProv, cfg.Spare[2])...)
 	user := "u1"
 
-	onDeliver := func(op string, v interface{}) error {
+	onDeliver := func(op string, ctx frugal.FContext, v interface{}) error {
 		a := []interface{}{v}
-		tr.add(event{"callback", "call", "subscribe" + op, renderList(a)})
+		tr.add(event{"callback", "call", "subscribe" + op, withCtx(renderList(a), ctxDesc(ctx))})
 		return resErr(subscriberFn(op, cfg.Errorable, a))
 	}
 	var err1, err2, err3 error
 	subCtor := func() []frugal.ServiceMiddleware { return tr.list(cfg.SubCtor, cfg.Spare[3]) }
 	if cfg.Errorable {
 		es := mainsvc.NewEventsErrorableSubscriber(subProvider, subCtor()...)
-		_, err1 = es.SubscribeSentErrorable(user, func(ctx frugal.FContext, p *mainsvc.Payload) error { return onDeliver("Sent", p) })
-		_, err2 = es.SubscribeNumErrorable(user, func(ctx frugal.FContext, t *base.Thing) error { return onDeliver("Num", t) })
-		_, err3 = mainsvc.NewPlainErrorableSubscriber(subProvider, subCtor()...).SubscribePingErrorable(func(ctx frugal.FContext, t *base.Thing) error { return onDeliver("Ping", t) })
+		_, err1 = es.SubscribeSentErrorable(user, func(ctx frugal.FContext, p *mainsvc.Payload) error { return onDeliver("Sent", ctx, p) })
+		_, err2 = es.SubscribeNumErrorable(user, func(ctx frugal.FContext, t *base.Thing) error { return onDeliver("Num", ctx, t) })
+		_, err3 = mainsvc.NewPlainErrorableSubscriber(subProvider, subCtor()...).SubscribePingErrorable(func(ctx frugal.FContext, t *base.Thing) error { return onDeliver("Ping", ctx, t) })
 	} else {
 		es := mainsvc.NewEventsSubscriber(subProvider, subCtor()...)
-		_, err1 = es.SubscribeSent(user, func(ctx frugal.FContext, p *mainsvc.Payload) { onDeliver("Sent", p) })
-		_, err2 = es.SubscribeNum(user, func(ctx frugal.FContext, t *base.Thing) { onDeliver("Num", t) })
-		_, err3 = mainsvc.NewPlainSubscriber(subProvider, subCtor()...).SubscribePing(func(ctx frugal.FContext, t *base.Thing) { onDeliver("Ping", t) })
+		_, err1 = es.SubscribeSent(user, func(ctx frugal.FContext, p *mainsvc.Payload) { onDeliver("Sent", ctx, p) })
+		_, err2 = es.SubscribeNum(user, func(ctx frugal.FContext, t *base.Thing) { onDeliver("Num", ctx, t) })
+		_, err3 = mainsvc.NewPlainSubscriber(subProvider, subCtor()...).SubscribePing(func(ctx frugal.FContext, t *base.Thing) { onDeliver("Ping", ctx, t) })
 	}
 	if err1 != nil || err2 != nil || err3 != nil {
 		mon.run.Inconclusive(fmt.Sprintf("configuration %d: subscribe failed: %v %v %v", cfg.Index, err1, err2, err3))
@@ -154,10 +155,11 @@ func (mon *monitor) scopeJudge(w interface{}, tr *tracer, b *bus, op scopeOp, us
 	}
 	// expected
 	var exp []event
-	a := foldIn(&exp, pubChain, pm, pargs)
+	cm := &ctxModel{TO: 5 * time.Second} // NewFContext's default, the caller's context below
+	a := foldIn(&exp, pubChain, pm, cm, pargs)
 	wire := a[len(a)-1]
-	sa := foldIn(&exp, subChain, sm, []interface{}{wire})
-	exp = append(exp, event{"callback", "call", sm, renderList(sa)})
+	sa := foldIn(&exp, subChain, sm, cm, []interface{}{wire})
+	exp = append(exp, event{"callback", "call", sm, withCtx(renderList(sa), cm.String())})
 	sres := subscriberFn(op.Name, errorable, sa)
 	sres = foldOut(&exp, subChain, sm, sres)
 	wantCallback := renderErr(resErr(sres))
